@@ -1474,6 +1474,14 @@ fn wake_send_waiters<T>(waiters: &mut LinkedList<SendWaitQueueEntry<T>>) {''',
      'expect': {'C10': ['C10.R1', 'C10.R5']}},
     {'name': 'seed-first-poll-enqueues-under-second-lock', 'patch': 'seeded/C06-first-poll-enqueues-under-second-lock/patch.diff',
      'expect': {'C06': ['C06.W'], 'C05': ['C05.W']}},
+    {'name': 'composed-mutex-dropped-notified-waiter-keeps-state', 'patch': 'selftest/composed/mutex-dropped-notified-waiter-keeps-state.diff',
+     'expect': {'C03': ['C03.R2']}},
+    {'name': 'seed-cleanup-dropped-notified-waiter-skips-wakeup', 'patch': 'seeded/C06-cleanup-dropped-notified-waiter-skips-wakeup/patch.diff',
+     'expect': {'C06': ['C06.R2']}},
+    {'name': 'seed-cleanup-done-state-merged-with-new', 'patch': 'seeded/C14-cleanup-done-state-merged-with-new/patch.diff',
+     'expect': {'C14': ['C14.R3']}},
+    {'name': 'seed-cleanup-close-clears-the-sent-value', 'patch': 'seeded/C12-cleanup-close-clears-the-sent-value/patch.diff',
+     'expect': {'C12': ['C12.R6']}},
 ]
 
 ALLP = ['C01','C02','C03','C04','C05','C06','C07','C08','C09','C10','C11','C12','C13','C14','C15','C17','C18','C19','C20']
@@ -1834,6 +1842,7 @@ impl<'a, MutexType, T> FusedFuture for ChannelReceiveFuture<'a, MutexType, T> {'
     {'name': 'benign-refactor-RF72-state-broadcast-futures-9', 'props': ALLP + ['C16'], 'patch': 'benign/RF72/patch.diff'},
     {'name': 'benign-refactor-RF73-containers-9', 'props': [p for p in ALLP if p != 'C20'] + ['C16'], 'patch': 'benign/RF73/patch.diff'},
     {'name': 'benign-refactor-RF74-parameter-renames', 'props': ALLP + ['C16'], 'patch': 'benign/RF74/patch.diff'},
+    {'name': 'benign-refactor-RF75-oneshots-cleanup-repaired', 'props': ALLP + ['C16'], 'patch': 'benign/RF75/patch.diff'},
     {'name': 'benign-unrelated-additions', 'props': ALLP, 'edits': [
         {'file': 'src/sync/semaphore.rs',
          'old': '''    /// Returns the amount of permits that are available on the semaphore
